@@ -676,12 +676,24 @@ pub fn eval_c20_spheres(item: &(Vec<DVec3>, String)) -> Eval {
                 if let Some(p) = pts.iter().find(|p| !inside(&s, **p)) {
                     e.issue("welzl-does-not-contain-a-point", id.clone(), format!("point {} is outside the sphere centre {} radius {:e}", fmt_vec(*p), fmt_vec(s.center), s.radius), rp());
                 }
-                if pts.len() >= 2 {
+                if pts.len() >= 2 && pts.len() <= 12 {
                     let best = min_sphere_bruteforce(pts);
                     if !(s.radius <= best * (1. + 1e-9) + 1e-12 * scale) {
                         e.issue("welzl-not-minimal", id.clone(), format!("radius {:e}, minimal enclosing sphere has radius {:e}", s.radius, best), rp());
                     }
                     h.u64((best / scale * 1024.) as u64);
+                } else if pts.len() > 12 {
+                    // certificate of minimality for large sets: the minimal enclosing sphere of the points ON the returned
+                    // sphere (brute force over their 2-, 3-, 4-point supports) is a lower bound of the minimal radius of the
+                    // whole set; a minimal sphere carries its own support, so the bound is attained exactly by it and
+                    // strictly smaller for every enclosing sphere that is too large
+                    let mut on: Vec<DVec3> = pts.iter().copied().filter(|p| p.distance(s.center) >= s.radius * (1. - 1e-7) - 1e-12 * scale).collect();
+                    on.truncate(24);
+                    let lower = if on.len() >= 2 { min_sphere_bruteforce(&on) } else { 0. };
+                    if !(s.radius <= lower * (1. + 1e-6) + 1e-12 * scale) {
+                        e.issue("welzl-not-minimal", id.clone(), format!("radius {:e}, but the {} points on that sphere are enclosed by a sphere of radius {:e}: the returned sphere is not supported by its boundary points", s.radius, on.len(), lower), rp());
+                    }
+                    h.u64(on.len() as u64);
                 }
             }
         }
@@ -822,6 +834,42 @@ pub fn run_c20(run: &mut Run) {
         let subs = subsets_upto(pool.len(), if thorough { 5 } else { 4 });
         let items: Vec<(Vec<DVec3>, String)> = subs.iter().map(|sb| (sb.iter().map(|&i| pool[i]).collect(), format!("spheres|grid3|{}|{}", name, idx_list(sb)))).collect();
         run.family(format!("bounding spheres: subsets of {{0,1,2}}^3 ({}) sizes 1..{}", name, if thorough { 5 } else { 4 }), items.len() as u64);
+        run.explore(&items, eval_c20_spheres, |i| J::s(i.1.clone()));
+    }
+    // large point sets (beyond any "many points" threshold of a solver): Kronecker points in a ball; a clustered block
+    // (a half shell) followed by points inside the block's own bounding sphere and by far points that drag the final
+    // sphere away; a drifting helix (every point outside the sphere of its predecessors); each in three storage orders
+    {
+        let unit = BoxSpec { name: "c20s", anchor: v3(-1., -1., -1.), width: v3(2., 2., 2.) };
+        let ball = |n: usize, r: f64| -> Vec<DVec3> { kronecker_points(4 * n, &unit, 3).into_iter().filter(|p| p.length() <= 1.).map(|p| p * r).take(n).collect() };
+        let mut sets: Vec<(Vec<DVec3>, String)> = vec![];
+        for n in if thorough { vec![30usize, 100, 256, 257, 258, 300, 513, 1000, 2000] } else { vec![30usize, 257, 270, 300, 520, 600] } {
+            sets.push((ball(n, 1.), format!("spheres|ball|{}", n)));
+            // block: lower half shell of the unit ball; then points high inside the block's bounding sphere; then far points
+            // (the block's bounding sphere is the unit ball: four points on its equator come first; nothing of the block
+            // lies in the upper half, where the two "inside" points are; the far points pull the final sphere down)
+            let mut v: Vec<DVec3> = vec![v3(1., 0., 0.), v3(-1., 0., 0.), v3(0., 0., 1.), v3(0., 0., -1.)];
+            v.extend(ball(3 * n, 1.).into_iter().filter(|p| p.y < -0.1 && p.length() > 0.6).take(n.saturating_sub(8).max(8)));
+            v.push(v3(0., 0.95, 0.));
+            v.push(v3(0.1, 0.9, -0.2));
+            v.push(v3(0., -3., 0.));
+            v.push(v3(2., -2.5, 0.5));
+            sets.push((v, format!("spheres|block+inside+far|{}", n)));
+            let helix: Vec<DVec3> = (0..n).map(|i| { let t = i as f64; v3((0.37 * t).cos() * (1. + 0.01 * t), (0.37 * t).sin() * (1. + 0.01 * t), 0.02 * t) }).collect();
+            sets.push((helix, format!("spheres|helix|{}", n)));
+        }
+        let mut items: Vec<(Vec<DVec3>, String)> = vec![];
+        for (v, id) in sets {
+            let mut r = v.clone();
+            r.reverse();
+            let mut t = v.clone();
+            let k = 256 % t.len();
+            t.rotate_left(k);
+            items.push((r, format!("{}|reversed", id)));
+            items.push((t, format!("{}|rotated256", id)));
+            items.push((v, id));
+        }
+        run.family("bounding spheres: large point sets (30-600 points, thorough up to 2000): ball, clustered block + points inside its bounding sphere + far points, drifting helix; three storage orders; containment and the support certificate of minimality".to_string(), items.len() as u64);
         run.explore(&items, eval_c20_spheres, |i| J::s(i.1.clone()));
     }
     let gp: Vec<DVec3> = GENERIC_POOL.iter().map(|f| v3(f[0], f[1], f[2])).collect();
